@@ -326,3 +326,65 @@ __CPROVER_assigns(verif_exc)
 ENSURES(first_argument_shortcut_is_pointwise_sound, (__CPROVER_return_value & 1) != 0)
 ENSURES(second_argument_shortcut_is_pointwise_sound, (__CPROVER_return_value & 2) != 0)
 ;
+
+/* ---- EV+ max / min (arith_pushdn interface) and plus / minus (arith_factor interface) ------------------------------------ */
+int lemma_evplus_max_kernel(const struct edge_value *av, node_handle ap, const struct edge_value *bv, node_handle bp)
+EVP_REQ()
+__CPROVER_assigns(verif_exc)
+ENSURES(kernel_is_the_scalar_operation_with_infinity, __CPROVER_return_value == 1)
+;
+int lemma_evplus_max_shortcuts_pw(struct forest *f1, struct forest *f2, const struct edge_value *av, node_handle ap, const struct edge_value *bv, node_handle bp, long da, _Bool dai, long db, _Bool dbi)
+EVPW_REQ()
+__CPROVER_assigns(verif_exc)
+ENSURES(first_argument_shortcut_is_pointwise_sound, (__CPROVER_return_value & 1) != 0)
+ENSURES(second_argument_shortcut_is_pointwise_sound, (__CPROVER_return_value & 2) != 0)
+ENSURES(equal_arguments_shortcut_is_pointwise_sound, (__CPROVER_return_value & 4) != 0)
+;
+int lemma_evplus_min_kernel(const struct edge_value *av, node_handle ap, const struct edge_value *bv, node_handle bp)
+EVP_REQ()
+__CPROVER_assigns(verif_exc)
+ENSURES(kernel_is_the_scalar_operation_with_infinity, __CPROVER_return_value == 1)
+;
+int lemma_evplus_min_shortcuts_pw(struct forest *f1, struct forest *f2, const struct edge_value *av, node_handle ap, const struct edge_value *bv, node_handle bp, long da, _Bool dai, long db, _Bool dbi)
+EVPW_REQ()
+__CPROVER_assigns(verif_exc)
+ENSURES(first_argument_shortcut_is_pointwise_sound, (__CPROVER_return_value & 1) != 0)
+ENSURES(second_argument_shortcut_is_pointwise_sound, (__CPROVER_return_value & 2) != 0)
+ENSURES(equal_arguments_shortcut_is_pointwise_sound, (__CPROVER_return_value & 4) != 0)
+;
+/* node-level operands of the factored interface: OMEGA_INFINITY, OMEGA_NORMAL (the constant 0 after factoring) or a stored node whose function at an
+ * arbitrary assignment is the ghost (d, di), d >= 0 */
+#define EVF_REQ() \
+    __CPROVER_requires(__CPROVER_is_fresh(fa, sizeof(*fa)) && __CPROVER_is_fresh(fb, sizeof(*fb)) && __CPROVER_is_fresh(fc, sizeof(*fc))) \
+    __CPROVER_requires((a == OMEGA_NORMAL || a == OMEGA_INFINITY || a > 0) && (b == OMEGA_NORMAL || b == OMEGA_INFINITY || b > 0) && verif_exc == 0) \
+    __CPROVER_requires(0 <= da && da < (1l << 40) && 0 <= db && db < (1l << 40))
+int lemma_evplus_plus_kernel(struct forest *fa, struct forest *fb, struct forest *fc, node_handle a, node_handle b, const struct edge_value *av, const struct edge_value *bv)
+__CPROVER_requires(__CPROVER_is_fresh(fa, sizeof(*fa)) && __CPROVER_is_fresh(fb, sizeof(*fb)) && __CPROVER_is_fresh(fc, sizeof(*fc)))
+__CPROVER_requires(__CPROVER_is_fresh(av, sizeof(*av)) && __CPROVER_is_fresh(bv, sizeof(*bv)) && av->mytype == edge_type__LONG && bv->mytype == edge_type__LONG)
+__CPROVER_requires((a == OMEGA_NORMAL || a == OMEGA_INFINITY) && (b == OMEGA_NORMAL || b == OMEGA_INFINITY) && verif_exc == 0)
+__CPROVER_assigns(verif_exc)
+ENSURES(kernel_is_the_scalar_operation_with_infinity, __CPROVER_return_value == 1)
+;
+int lemma_evplus_plus_shortcuts_pw(struct forest *fa, struct forest *fb, struct forest *fc, node_handle a, node_handle b, long da, _Bool dai, long db, _Bool dbi)
+EVF_REQ()
+__CPROVER_requires(a > 0 || b > 0)        /* two terminals go to the kernel first */
+__CPROVER_assigns(verif_exc)
+ENSURES(first_argument_shortcut_is_pointwise_sound, (__CPROVER_return_value & 1) != 0)
+ENSURES(second_argument_shortcut_is_pointwise_sound, (__CPROVER_return_value & 2) != 0)
+ENSURES(equal_arguments_shortcut_is_pointwise_sound, (__CPROVER_return_value & 4) != 0)
+;
+int lemma_evplus_minus_kernel(struct forest *fa, struct forest *fb, struct forest *fc, node_handle a, node_handle b, const struct edge_value *av, const struct edge_value *bv)
+__CPROVER_requires(__CPROVER_is_fresh(fa, sizeof(*fa)) && __CPROVER_is_fresh(fb, sizeof(*fb)) && __CPROVER_is_fresh(fc, sizeof(*fc)))
+__CPROVER_requires(__CPROVER_is_fresh(av, sizeof(*av)) && __CPROVER_is_fresh(bv, sizeof(*bv)) && av->mytype == edge_type__LONG && bv->mytype == edge_type__LONG)
+__CPROVER_requires((a == OMEGA_NORMAL || a == OMEGA_INFINITY) && (b == OMEGA_NORMAL || b == OMEGA_INFINITY) && verif_exc == 0)
+__CPROVER_assigns(verif_exc)
+ENSURES(kernel_is_the_scalar_operation_with_infinity, __CPROVER_return_value == 1)
+;
+int lemma_evplus_minus_shortcuts_pw(struct forest *fa, struct forest *fb, struct forest *fc, node_handle a, node_handle b, long da, _Bool dai, long db, _Bool dbi)
+EVF_REQ()
+__CPROVER_requires(a > 0 || b > 0)        /* two terminals go to the kernel first */
+__CPROVER_assigns(verif_exc)
+ENSURES(first_argument_shortcut_is_pointwise_sound, (__CPROVER_return_value & 1) != 0)
+ENSURES(second_argument_shortcut_is_pointwise_sound, (__CPROVER_return_value & 2) != 0)
+ENSURES(equal_arguments_shortcut_is_pointwise_sound, (__CPROVER_return_value & 4) != 0)
+;
